@@ -12,7 +12,7 @@ REQUIRED_REACH = {'*': ['evictions', 'put_restore', 'renew_ok']}
 def _tweak(pf, rng):
     pf.p_traits = 0.7
     pf.p_lease = 0.5
-    pf.weights = {'move_app': 5, 'renew': 5, 'replace_server': 4}
+    pf.weights = {'move_app': 5, 'renew': 5, 'replace_server': 4, 'valid_until': 5}
 
 
 run = make_run(['C03'], _tweak)
